@@ -158,7 +158,7 @@ Proof.
       * intros x Hx. apply in_st_insert in Hx. destruct Hx as [Hx|Hx]; [|apply HI; exact Hx].
         subst x. cbn. unfold effective. cbn.
         destruct cs as [s|] eqn:ECS.
-        -- destruct (read_response_scope (u_opts up)) as [rs|] eqn:ER.
+        -- destruct (response_audience (u_opts up) (Some s)) as [rs|] eqn:ER.
            ++ split; [reflexivity|]. intros sS HS Hpos. rewrite HS. unfold entry_ttl. apply cap_ttl_le. exact Hpos.
            ++ split; [reflexivity|]. intros sS HS. discriminate.
         -- split; [reflexivity|]. intros sS HS. discriminate.
@@ -338,13 +338,45 @@ Proof.
     + intros H Hr. inversion H; subst ob. cbn in Hr. congruence.
 Qed.
 
-(* ------------------------------------------------------------------ declared scopes the code cannot use *)
+(* ------------------------------------------------------------------ tailored answers are never shared *)
 (* the authority's option carries a non-zero SCOPE *)
-Definition tailored (up : uresp) : bool :=
-  match u_opts up with
-  | Some l => match first_ecs l with Some sub => negb (e_scope sub =? 0) | None => false end
-  | None => false
-  end.
+Definition tailored (up : uresp) : bool := declares_scope (u_opts up).
+
+(* a usable SCOPE is a declared one *)
+Lemma read_scope_declares opts rs : read_response_scope opts = Some rs -> declares_scope opts = true.
+Proof.
+  intros H. apply read_response_scope_wf in H.
+  destruct H as [l [sub [a [Ho [EF [Hs _]]]]]]. subst opts. unfold declares_scope. rewrite EF.
+  destruct (N.eqb_spec (e_scope sub) 0); [contradiction|reflexivity].
+Qed.
+
+(* a tailored answer always has an audience prefix: the declared scope when it can be read, the
+   forwarded prefix otherwise *)
+Lemma tailored_has_audience opts s : declares_scope opts = true ->
+  exists A, response_audience opts (Some s) = Some A /\
+            (read_response_scope opts = Some A \/ (read_response_scope opts = None /\ A = s)).
+Proof.
+  intros HD. unfold response_audience. destruct (read_response_scope opts) as [rs|].
+  - exists rs. auto.
+  - rewrite HD. exists s. auto.
+Qed.
+
+(* what a miss stores, in terms of response_audience *)
+Lemma miss_stores c st qy up aged rf st' ob s :
+  serve c st qy up aged rf = (st', ob) -> ob_src ob = 0 -> req_scope_of c qy = Some s ->
+  exists ttl, ob_stored ob =
+    Some (match response_audience (u_opts up) (Some s) with
+          | Some A => normalize_scope (clamp_scope (policy_of (c_b c)) (Some A) (Some s))
+          | None => None
+          end, ttl).
+Proof.
+  unfold serve, req_scope_of. intros H Hsrc Hcs.
+  destruct (scoped_lookup st (q_name qy) (q_cd qy) _) as [[e0 sc]|].
+  - destruct (c_prefetch c && aged && prefetch_eligible e0); inversion H; subst ob; discriminate.
+  - destruct (st_lookup st (q_name qy) (q_cd qy) None) as [e0|].
+    + destruct (c_prefetch c && aged && prefetch_eligible e0); inversion H; subst ob; discriminate.
+    + inversion H; subst ob; cbn. rewrite Hcs. eexists. reflexivity.
+Qed.
 
 (* when ReadResponseScope accepts the option, a miss files the answer under the declared scope cut
    to min(declared, forwarded, floor) *)
@@ -353,26 +385,91 @@ Lemma tailored_answer_filed_scoped c st qy up aged rf st' ob s rs :
   req_scope_of c qy = Some s -> read_response_scope (u_opts up) = Some rs ->
   exists ttl, ob_stored ob = Some (normalize_scope (clamp_scope (policy_of (c_b c)) (Some rs) (Some s)), ttl).
 Proof.
-  unfold serve, req_scope_of. intros H Hsrc Hcs Hrs.
-  destruct (scoped_lookup st (q_name qy) (q_cd qy) _) as [[e0 sc]|].
-  - destruct (c_prefetch c && aged && prefetch_eligible e0); inversion H; subst ob; discriminate.
-  - destruct (st_lookup st (q_name qy) (q_cd qy) None) as [e0|].
-    + destruct (c_prefetch c && aged && prefetch_eligible e0); inversion H; subst ob; discriminate.
-    + inversion H; subst ob; cbn. rewrite Hcs, Hrs. eexists. reflexivity.
+  intros H Hsrc Hcs Hrs. destruct (miss_stores _ _ _ _ _ _ _ _ _ H Hsrc Hcs) as [ttl Hst].
+  unfold response_audience in Hst. rewrite Hrs in Hst. exists ttl. exact Hst.
 Qed.
 
-(* ... but a SCOPE longer than the family's addresses (here /33 on IPv4), or one whose family and address
-   disagree, makes ReadResponseScope report "no scope": the tailored answer is filed under the shared
-   key and the next client, who sent no subnet option at all, is served it *)
+(* the full statement: ANY non-zero SCOPE — usable or not — on an answer fetched with a forwarded
+   subnet: the answer is filed under its audience prefix (declared scope, or the forwarded prefix when
+   the SCOPE cannot be interpreted) cut to min(audience, forwarded, floor) bits *)
+Lemma tailored_answer_never_shared_lemma c st qy up aged rf st' ob s :
+  serve c st qy up aged rf = (st', ob) -> ob_src ob = 0 ->
+  req_scope_of c qy = Some s -> tailored up = true ->
+  exists A ttl,
+    (read_response_scope (u_opts up) = Some A \/ (read_response_scope (u_opts up) = None /\ A = s)) /\
+    ob_stored ob = Some (normalize_scope (clamp_scope (policy_of (c_b c)) (Some A) (Some s)), ttl).
+Proof.
+  intros H Hsrc Hcs HT. destruct (miss_stores _ _ _ _ _ _ _ _ _ H Hsrc Hcs) as [ttl Hst].
+  destruct (tailored_has_audience (u_opts up) s HT) as [A [HA Hor]]. rewrite HA in Hst.
+  exists A, ttl. split; assumption.
+Qed.
+
+(* the history that used to share a tailored answer (finding unusable-scope-filed-shared, fixed):
+   SCOPE /33 on an IPv4 option is read as /32 and cut to the forwarded /24; the next client, who sent
+   no subnet option, is NOT served answer 1 *)
 Definition overlong_cfg : ccfg := mk_ccfg (mk_bargs true 0 0 0 0 []) 0 false.
 Definition overlong_ops : list cop :=
   [ mk_cop (mk_query (mk_ipb 4 3325256714) (Some [OEcs ecs_a]) false 0)
            (mk_uresp 1 60000000000 (Some [OEcs (mk_ecs 1 24 33 (mk_ipb 4 3405803776))])) false (mk_uresp 2 60000000000 None);
     mk_cop (mk_query (mk_ipb 4 3325256715) (Some []) false 0) (mk_uresp 3 60000000000 None) false (mk_uresp 4 60000000000 None) ].
 
-Lemma overlong_scope_is_shared :
+Lemma overlong_scope_stays_scoped :
   tailored (mk_uresp 1 60000000000 (Some [OEcs (mk_ecs 1 24 33 (mk_ipb 4 3405803776))])) = true /\
   snd (run overlong_cfg [] overlong_ops) =
-  [ mk_obs 0 1 (Some (Some ecs_a)) (Some (None, 60000000000%Z)) None;
-    mk_obs 2 1 None None None ].
+  [ mk_obs 0 1 (Some (Some ecs_a)) (Some (Some (mk_pfx true 3405803776 24), 60000000000%Z)) None;
+    mk_obs 0 3 (Some None) (Some (None, 60000000000%Z)) None ].
 Proof. vm_compute. split; reflexivity. Qed.
+
+(* family 2 on a 4-byte address (nobody can say whom the answer is for): kept for the audience that
+   asked, 203.0.113.0/24 *)
+Definition unusable_ops : list cop :=
+  [ mk_cop (mk_query (mk_ipb 4 3325256714) (Some [OEcs ecs_a]) false 0)
+           (mk_uresp 1 60000000000 (Some [OEcs (mk_ecs 2 24 24 (mk_ipb 4 167772160))])) false (mk_uresp 2 60000000000 None);
+    mk_cop (mk_query (mk_ipb 4 3325256715) (Some []) false 0) (mk_uresp 3 60000000000 None) false (mk_uresp 4 60000000000 None);
+    mk_cop (mk_query (mk_ipb 4 3325256716) (Some [OEcs ecs_a]) false 0) (mk_uresp 5 60000000000 None) false (mk_uresp 6 60000000000 None) ].
+
+Lemma unusable_scope_kept_for_the_asker :
+  snd (run overlong_cfg [] unusable_ops) =
+  [ mk_obs 0 1 (Some (Some ecs_a)) (Some (Some (mk_pfx true 3405803776 24), 60000000000%Z)) None;
+    mk_obs 0 3 (Some None) (Some (None, 60000000000%Z)) None;
+    mk_obs 1 1 None None None ].
+Proof. vm_compute. reflexivity. Qed.
+
+(* a request scope exists only under a built policy, and is a well-formed prefix *)
+Lemma req_scope_wf c qy s : req_scope_of c qy = Some s ->
+  exists p, policy_of (c_b c) = Some p /\ p_bits s <= awidth (p_is4 s).
+Proof.
+  unfold req_scope_of, request_scope.
+  destruct (allows (policy_of (c_b c)) (addr_from_slice_unmap (q_remote qy))) eqn:EA; cbn [negb]; [|discriminate].
+  apply allows_true in EA. destruct EA as [pl [c0 [Hp _]]].
+  destruct (first_ecs _) as [sub|]; [|discriminate].
+  destruct (addr_from_slice_unmap (e_addr sub)) as [a|]; [|discriminate].
+  intros H. apply addr_prefix_some in H. destruct H as [Hb [Hf [Hbits _]]].
+  exists pl. split; [exact Hp|]. rewrite Hf, Hbits. exact Hb.
+Qed.
+
+(* ... so a tailored answer fetched with a forwarded subnet longer than /0 is ALWAYS filed scoped,
+   under a scope no longer than what was forwarded: it is never put under the shared key *)
+Lemma tailored_answer_scoped_lemma c st qy up aged rf st' ob s :
+  serve c st qy up aged rf = (st', ob) -> ob_src ob = 0 ->
+  req_scope_of c qy = Some s -> tailored up = true -> p_bits s <> 0 ->
+  exists sS ttl, ob_stored ob = Some (Some sS, ttl) /\ 1 <= p_bits sS /\ p_bits sS <= p_bits s.
+Proof.
+  intros H Hsrc Hcs HT Hnz.
+  destruct (tailored_answer_never_shared_lemma _ _ _ _ _ _ _ _ _ H Hsrc Hcs HT) as [A [ttl [Hor Hst]]].
+  destruct (req_scope_wf _ _ _ Hcs) as [p [Hp Hsw]]. rewrite Hp in Hst.
+  assert (1 <= p_bits A /\ p_bits A <= awidth (p_is4 A)) as [HA1 HAw].
+  { destruct Hor as [HR|[_ HE]].
+    - apply read_response_scope_wf in HR. destruct HR as [l [sub [a [_ [_ [_ [_ [_ [Hf [_ [Hw [H1 _]]]]]]]]]]]].
+      rewrite Hf. split; assumption.
+    - subst A. split; [lia|exact Hsw]. }
+  apply policy_of_some in Hp. apply build_ok_shape in Hp.
+  destruct Hp as [_ [_ [_ [_ [[M41 _] [[M61 _] _]]]]]].
+  destruct (clamp_scope (Some p) (Some A) (Some s)) as [r|] eqn:EC.
+  2:{ unfold clamp_scope in EC. destruct (addr_prefix _ _); discriminate. }
+  pose proof (clamp_scope_wf p A (Some s) r HAw EC) as [_ [Hb _]].
+  assert (1 <= floor_bits p (p_is4 A)) as HF by (unfold floor_bits; destruct (p_is4 A); assumption).
+  cbn [normalize_scope] in Hst.
+  destruct (N.eqb_spec (p_bits r) 0) as [Z|NZ]; [lia|].
+  eexists. exists ttl. split; [exact Hst|]. cbn. lia.
+Qed.
